@@ -42,6 +42,29 @@ structure Exp where
   count : Nat := 0
   deriving Repr, Inhabited
 
+/-- the CO_ clauses of an expectation statement, as written. -/
+inductive Clause
+  | coYield (v : Val)           -- CO_YIELD
+  | complete (r : Val)          -- CO_RETURN / CO_THROW
+  deriving DecidableEq, Repr, Inhabited
+
+/-- `handle_co_yield::action` appends to the expectation's one shared list of yield expressions (created
+    by whichever CO_ clause is processed first, coro.hpp:190-317); `handle_co_return` / `handle_co_throw`
+    install the handler that iterates *that same* list when the coroutine body runs.  So where the
+    completion clause stands among the CO_YIELDs does not matter; exactly one completion clause is legal
+    (static_assert, C19). -/
+def Clause.yield? : Clause → Option Val
+  | .coYield v => some v
+  | .complete _ => none
+def Clause.completion? : Clause → Option Val
+  | .coYield _ => none
+  | .complete r => some r
+
+def Exp.ofClauses (cs : List Clause) (eager : Bool) : Option Exp :=
+  match cs.filterMap Clause.completion? with
+  | [r] => some { yields := cs.filterMap Clause.yield?, ret := r, eager := eager }
+  | _ => none
+
 /-- one coroutine frame: its own cursor into the shared yield list. -/
 structure Co where
   e : Nat
